@@ -418,13 +418,29 @@ def check(case: Dict[str, Any], obs: Dict[str, Any], ref: Optional[Dict[str, Any
         em_count[v] = em_count.get(v, 0) + 1
 
     def ev_where(pos: int) -> str:
-        """where-string for a loss / disorder that concerns emission number `pos`"""
+        """where-string for a loss / disorder first seen at emission number `pos`: names equal events when a value
+        that is concerned (emission `pos`, or a value returned less often than emitted by a finished run) was
+        emitted twice within one cycle"""
         if not _emitters_share_cycle(emitted):
             return "run_for result"
-        if 0 <= pos < len(emitted) and any(
-                j != pos and e[0] == emitted[pos][0] and e[2] == emitted[pos][2] for j, e in enumerate(emitted)):
-            return "two emitters of equal events in one cycle"
+        vals = set()
+        if 0 <= pos < len(emitted):
+            vals.add(emitted[pos][0])
+        if complete:
+            left = dict(em_count)
+            for v in rt_vals:
+                left[v] = left.get(v, 0) - 1
+            vals.update(v for v, n in left.items() if n > 0)
+        seen_vc = set()
+        for v, _, c in emitted:
+            if v in vals and (v, c) in seen_vc:
+                return "two emitters of equal events in one cycle"
+            seen_vc.add((v, c))
         return "two emitters in one cycle"
+
+    def is_subsequence(short: List[int], full: List[int]) -> bool:
+        it = iter(full)
+        return all(any(x == y for y in it) for x in short)
 
     ev_bad = False
     for v in rt_vals:
@@ -444,7 +460,9 @@ def check(case: Dict[str, Any], obs: Dict[str, Any], ref: Optional[Dict[str, Any
                 break
     if not ev_bad and rt_vals != em_vals[:len(rt_vals)]:
         pos = next(i for i in range(len(rt_vals)) if rt_vals[i] != em_vals[i])
-        if sorted(rt_vals) == sorted(em_vals[:len(rt_vals)]):
+        # (with unique ids a permutation of the prefix is never a subsequence, so the first test only matters for
+        # equal values: [a, a, b] returned as [a, b] is a loss, not a disorder)
+        if not is_subsequence(rt_vals, em_vals) and sorted(rt_vals) == sorted(em_vals[:len(rt_vals)]):
             V("events", ev_where(pos), "events returned out of emission order",
               f"returned {rt_vals}, emitted {em_vals}")
         else:
